@@ -975,3 +975,9 @@ T('C17', 'twin-is-gitref-as-guard-clauses', GF, "    return (\n        (candidat
   "    if candidate is not None and os.path.exists(candidate):\n        return False\n    if candidate == EXPLICIT_MISSING_FILE:\n        return False\n    return is_valid_gitref(candidate)")
 M('C17', 'is-gitref-guard-clauses-forget-the-null-file', GF, "    return (\n        (candidate is None or not os.path.exists(candidate)) and\n        candidate != EXPLICIT_MISSING_FILE and\n        is_valid_gitref(candidate)\n        )",
   "    if candidate is not None and os.path.exists(candidate):\n        return False\n    return is_valid_gitref(candidate)", 'R17.4')
+M('C10', 'generic-resolver-always-takes-remote', STR, '        action = strategy.replace("use-", "")', '        action = "remote"', 'R10.1')
+M('C03', 'conflict-record-written-over-surviving-decisions', STR, '    _drop_decisions_on_keys(decisions, base_path, ("nbdime-conflicts",))\n', '', 'R03.27')
+M('C03', 'attachment-copies-written-over-surviving-decisions', STR, "            _drop_decisions_on_keys(decisions, base_path, (local_name, remote_name))\n", '', 'R03.27')
+T('C03', 'twin-surviving-decisions-dropped-by-inline-filter', STR, '    _drop_decisions_on_keys(decisions, base_path, ("nbdime-conflicts",))\n',
+  '    decisions.decisions = [d for d in decisions if not any(e.key == "nbdime-conflicts" for e in list(d.local_diff or []) + list(d.remote_diff or []))]\n')
+M('C04', 'bundled-decisions-moved-to-the-list-level', STR, "            key = d.common_path[level]\n", "            key = d.common_path[level]\n            d = push_patch_decision(d, d.common_path[level:])\n", 'R04.11')
